@@ -1,15 +1,18 @@
 SPECIFICATION Spec
 CONSTANTS
   W = 2
-  NOps = 3
+  NOps = 2
   K = 2
   MaxFail = 1
-  NPhases = 2
+  NPhases = 1
   FixDrain = TRUE
   FixWorkerErr = TRUE
   AllowStop = TRUE
   AllowFault = FALSE
   AliveCheck = TRUE
+  PhaseOn = {1, 2, 3, 4, 5}
+  AllowCtrlC = FALSE
+  MaxNFE = 1
 INVARIANT ProtocolOK
 INVARIANT ClosedAtEnd
 INVARIANT NoProblemLost
